@@ -10,7 +10,7 @@ from __future__ import annotations
 
 import math
 
-from lcmsa.core import AnalysisError, callee_name, kw, show, walk
+from lcmsa.core import AnalysisError, callee_name, is_term, kw, show, walk
 from lcmsa.match import need
 from lcmsa.report import Ctx, rule
 
@@ -286,14 +286,23 @@ def filter_params_guard(ctx: Ctx):
     ctx.ob("G:filter-with-parameters:exception-class", okc, prog.node_where(fr.module, node),
            "a filter with parameters raises ValueError" if okc else f"raises {show(exc)[:40]}")
     # evaluate the guard on witnesses: (is_filter, params entry) -> raise?
-    flag_terms = [c for c in conds if "is_filter" in show(c)]
-    other = [c for c in conds if c not in flag_terms and c[0] != "in-loop" and not (c[0] == "not" and "weight_next_" in show(c))]
+    # the atomic "is this function a filter" reads: smallest sub-terms that mention the column
+    def flag_atoms(c):
+        kids = [y for x in c[1:] if isinstance(x, tuple) for y in ([x] if is_term(x) else [z for z in x if is_term(z)])]
+        inner = [a for k in kids if "is_filter" in show(k) for a in flag_atoms(k)]
+        if inner:
+            return inner
+        # a read of the column (`info.loc[name, "is_filter"]`, `info.is_filter[name]`, `name in <query 'is_filter'>`)
+        return [c] if "is_filter" in show(c) and c[0] in ("sub", "attr", "cmp", "call") else []
+
+    relevant = [c for c in conds if c[0] != "in-loop" and "weight_next_" not in show(c)]
+    flags = list(dict.fromkeys(a for c in relevant for a in flag_atoms(c)))
+    flag_terms, other = [], relevant
     results = {}
     for is_filter in (True, False):
         for entry in ({"a": 1.0}, {}):
             env = {}
-            for c in flag_terms:
-                base = c[1] if c[0] == "not" else c
+            for base in flags:
                 env[base] = is_filter
             for c in other:
                 for s_ in walk(c):
